@@ -9,6 +9,7 @@ import (
 	"math/rand"
 	"net/http"
 	"net/http/httptest"
+	"strconv"
 	"strings"
 	"sync"
 	"time"
@@ -86,6 +87,7 @@ type c03Req struct {
 	Store  string            `json:"store"`
 	// concretisation parameters (not part of the abstract request)
 	cut    int
+	cutTok string // for tok = "cut": which token is cut where ("cut:<kind>:<n>")
 	mutPos int
 	mutXor byte
 	Dbg    string `json:"dbg"`
@@ -156,6 +158,22 @@ func (cw *c03world) mechTokenBytes(tok string, ap map[string]string, s c01Settin
 	case "garbage":
 		return rbytes(cw.r, 40+cw.r.Intn(40)), nil, nil
 	}
+	if strings.HasPrefix(tok, "cut:") {
+		// "cut:<kind>:<n>": a Kerberos mech token of that kind that ends n octets after the mechanism OID (inside or right after its
+		// token identifier), with the outer length adjusted - well-formed DER around a message that is not there
+		parts := strings.Split(tok, ":")
+		n, _ := strconv.Atoi(parts[2])
+		full, _, err := cw.mechTokenBytes(parts[1], ap, s)
+		if err != nil {
+			return nil, nil, err
+		}
+		oid, _ := asn1.Marshal(gssapi.OIDKRB5.OID())
+		i := bytes.Index(full, oid)
+		if i < 0 || i+len(oid)+n > len(full) {
+			return nil, nil, fmt.Errorf("cannot cut the %s token", parts[1])
+		}
+		return asn1tools.AddASNAppTag(append([]byte{}, full[i:i+len(oid)+n]...), 0), nil, nil
+	}
 	return nil, nil, nil
 }
 
@@ -182,7 +200,11 @@ func (cw *c03world) headerFor(q *c03Req, s c01Settings) (string, bool, *apMint, 
 	if class == "truncated" || class == "mutated" {
 		class = "negInit"
 	}
-	mt, m, err := cw.mechTokenBytes(h.Tok, q.AP, s)
+	tokSel := h.Tok
+	if h.Tok == "cut" {
+		tokSel = q.cutTok
+	}
+	mt, m, err := cw.mechTokenBytes(tokSel, q.AP, s)
 	if err != nil {
 		return "", false, nil, err
 	}
@@ -325,6 +347,19 @@ func cmdC03(args []string) error {
 		for _, t := range []string{"apreq", "aprep", "krberror", "garbage"} {
 			if err := one(base, Q(H("rawKRB5", "absent", t), nominal)); err != nil {
 				return err
+			}
+		}
+		// Kerberos mech tokens cut short inside or right after the token identifier, outer lengths adjusted, under the three framings
+		for _, fr := range []c03Hdr{H("negInit", "krb5", "cut"), H("negResp", "krb5", "cut"), H("rawKRB5", "absent", "cut")} {
+			for _, kind := range []string{"apreq", "aprep", "krberror"} {
+				for n := 0; n <= 3; n++ {
+					q := Q(fr, nominal)
+					q.cutTok = fmt.Sprintf("cut:%s:%d", kind, n)
+					q.Dbg = q.cutTok
+					if err := one(base, q); err != nil {
+						return err
+					}
+				}
 			}
 		}
 		// the C01 single-defect catalogue under the three AP-REQ carrying framings and the settings variants
